@@ -44,3 +44,7 @@ import Properties.C01Cycle
 #print axioms Hive.C01.modifyVehicle_permU
 #print axioms Hive.C01.modifyStation_permU
 #print axioms Hive.C01.removeRequest_permU
+#print axioms Hive.C01.admitRequests_permW
+#print axioms Hive.C01.cancelRequests_permW
+#print axioms Hive.C01.preStep_permW
+#print axioms Hive.C01.full_run_order_independent
